@@ -92,6 +92,18 @@ func CheckSources(pkgPath string, srcs map[string]string, imp types.Importer) *C
 	return c
 }
 
+// CheckParsed type-checks already parsed files (so that Info is keyed by the caller's syntax nodes).
+func CheckParsed(pkgPath string, fset *token.FileSet, files []*ast.File, imp types.Importer) *Checked {
+	c := &Checked{Fset: fset, Files: files, Info: NewInfo()}
+	conf := types.Config{Importer: imp, Error: func(err error) {
+		if te, ok := err.(types.Error); ok {
+			c.Errs = append(c.Errs, te)
+		}
+	}}
+	c.Pkg, _ = conf.Check(pkgPath, fset, files, c.Info)
+	return c
+}
+
 // MsgClass reduces a diagnostic to a template: quoted parts, identifiers after known keywords,
 // numbers and positions are stripped.
 func MsgClass(msg string) string {
